@@ -253,4 +253,236 @@ MUTANTS += [
      "expect": [("C19", "C19|R1")]},
 ]
 
+MUTANTS += [
+    {"name": "c15-checkpoint-wal-before-state",
+     "edits": [("src/index/manager.rs",
+                """        let mut snapshot = self.state.write();
+        let mut wal_guard = self.wal.lock();
+""",
+                """        let mut wal_guard = self.wal.lock();
+        let mut snapshot = self.state.write();
+""")],
+     "expect": [("C15", "C15|R1")]},
+    {"name": "c15-reentrant-read-under-write",
+     "edits": [("src/index/manager.rs",
+                """        // 2. Set the version we're about to persist
+""",
+                """        let _keys_now = self.read_state().len();
+        // 2. Set the version we're about to persist
+""")],
+     "expect": [("C15", "C15|R1")]},
+    {"name": "c15-bounded-channel",
+     "edits": [("src/cas.rs",
+                """let (sender, receiver) = std::sync::mpsc::channel::<File>();""",
+                """let (sender, receiver) = std::sync::mpsc::sync_channel::<File>(1);"""),
+               ("src/cas.rs",
+                """    datasync_channel: Option<std::sync::mpsc::Sender<File>>,""",
+                """    datasync_channel: Option<std::sync::mpsc::SyncSender<File>>,""")],
+     "expect": [("C15", "C15|R2")]},
+    {"name": "c15-intents-under-wal",
+     "edits": [("src/index/manager.rs",
+                """        let mut wal_guard = self.wal.lock();
+
+        self.checkpoint_inner(reason, &mut wal_guard, &mut *snapshot)""",
+                """        let mut wal_guard = self.wal.lock();
+        let _pending = self.pending_intents.lock().len();
+
+        self.checkpoint_inner(reason, &mut wal_guard, &mut *snapshot)""")],
+     "expect": [("C15", "C15|R1")]},
+    {"name": "c04-release-intents-before-delete",
+     "edits": [("src/index/manager.rs",
+                """        unreferenced_from_op.retain(|hash| !self.has_live_intent(hash));
+
+        // Delete blobs BEFORE any checkpoint
+        if !unreferenced_from_op.is_empty() {
+            delete_fn(&unreferenced_from_op).map_err(|e| IndexError::BlobDeletion { source: e })?;
+        }
+
+        drop(intents);
+
+        if rolled_over {
+            let mut state = self.state.write();
+            let mut wal = self.wal.lock();
+            self.checkpoint_inner(CheckpointReason::SegmentRollover, &mut wal, &mut state)?;
+        }
+
+        Ok(())
+    }
+
+    pub fn apply_remove_op(""",
+                """        unreferenced_from_op.retain(|hash| !self.has_live_intent(hash));
+
+        drop(intents);
+
+        // Delete blobs BEFORE any checkpoint
+        if !unreferenced_from_op.is_empty() {
+            delete_fn(&unreferenced_from_op).map_err(|e| IndexError::BlobDeletion { source: e })?;
+        }
+
+        if rolled_over {
+            let mut state = self.state.write();
+            let mut wal = self.wal.lock();
+            self.checkpoint_inner(CheckpointReason::SegmentRollover, &mut wal, &mut state)?;
+        }
+
+        Ok(())
+    }
+
+    pub fn apply_remove_op(""")],
+     "expect": [("C04", "C04|R1"), ("C04", "C04|R4")]},
+    {"name": "c04-remove-without-filter",
+     "edits": [("src/index/manager.rs",
+                """        // Remove any unreferenced hashes that are still referenced by intents
+        unreferenced_from_op.retain(|hash| !self.has_live_intent(hash));
+""", "")],
+     "expect": [("C04", "C04|R2")]},
+    {"name": "c04-register-after-publish",
+     "edits": [("src/transaction.rs",
+                """        // Register intent - returns a guard that will cleanup on drop if not committed
+        let intent_guard = self
+            .cas_inner
+            .index
+            .register_intent(self.key.clone(), IntentMeta { blob_hash, blob_size: self.size })
+            .map_err(crate::LibError::Index)?;
+
+        tracing::debug!(%blob_hash, key = ?self.key, "Committing transaction");
+        let _cas_path = self
+            .cas_inner
+            .cas_manager
+            .commit_blob(self.temp_file.path(), &blob_hash)
+            .map_err(crate::LibError::Cas)?;
+""",
+                """        tracing::debug!(%blob_hash, key = ?self.key, "Committing transaction");
+        let _cas_path = self
+            .cas_inner
+            .cas_manager
+            .commit_blob(self.temp_file.path(), &blob_hash)
+            .map_err(crate::LibError::Cas)?;
+
+        // Register intent - returns a guard that will cleanup on drop if not committed
+        let intent_guard = self
+            .cas_inner
+            .index
+            .register_intent(self.key.clone(), IntentMeta { blob_hash, blob_size: self.size })
+            .map_err(crate::LibError::Index)?;
+""")],
+     "expect": [("C04", "C04|R3")]},
+    {"name": "c04-orphan-ignores-intents",
+     "edits": [("src/orphan.rs",
+                """                drop(state);
+
+                if still_referenced || has_intent {
+                    result.orphans_skipped += 1;
+                    continue;
+                }
+
+                match std::fs::remove_file(&blob_path) {""",
+                """                drop(state);
+                let _ = has_intent;
+
+                if still_referenced {
+                    result.orphans_skipped += 1;
+                    continue;
+                }
+
+                match std::fs::remove_file(&blob_path) {""")],
+     "expect": [("C04", "C04|R2"), ("C08", "C08|R1")]},
+    {"name": "c04-filter-by-key-map-again",
+     "edits": [("src/index/manager.rs",
+                """        // Filter out any unreferenced hashes that are still referenced by other intents
+        unreferenced_from_op.retain(|hash| !self.has_live_intent(hash));""",
+                """        // Filter out any unreferenced hashes that are still referenced by other intents
+        unreferenced_from_op
+            .retain(|hash| !intents.values().any(|intent_hash| intent_hash == hash));""")],
+     "expect": [("C04", "C04|R5")]},
+    {"name": "c04-orphan-recheck-outside-lock",
+     "edits": [("src/orphan.rs",
+                """        let blob_path = self.cas_inner.paths.cas_file_path(hash);
+        let _intents = self.cas_inner.index.pending_intents.lock();
+        let state = self.cas_inner.index.read_state();
+        let still_referenced = state.contains_blob_hash(hash);
+        let has_intent = self.cas_inner.index.has_live_intent(hash);
+        drop(state);
+""",
+                """        let blob_path = self.cas_inner.paths.cas_file_path(hash);
+        let _intents = self.cas_inner.index.pending_intents.lock();
+        let state = self.cas_inner.index.read_state();
+        let still_referenced = state.contains_blob_hash(hash);
+        let has_intent = self.cas_inner.index.has_live_intent(hash);
+        drop(state);
+        drop(_intents);
+""")],
+     "expect": [("C04", "C04|R1"), ("C08", "C08|R1")]},
+    {"name": "c05-open-after-guard-release",
+     "edits": [("src/cas.rs",
+                """        let (item, file) = {
+            let state = self.index.read_state();
+            let Some(item) = state.get_item(key) else {
+                return Ok(None);
+            };
+            let file = self.cas_manager.open_blob(&item.blob_hash);
+            (item, file)
+        };
+""",
+                """        let item = {
+            let state = self.index.read_state();
+            let Some(item) = state.get_item(key) else {
+                return Ok(None);
+            };
+            item
+        };
+        let file = self.cas_manager.open_blob(&item.blob_hash);
+""")],
+     "expect": [("C05", "C05|R1")]},
+    {"name": "c05-second-open-by-path",
+     "edits": [("src/cas_manager.rs",
+                """        let read_len = range_end - range_start;
+        if read_len == 0 {""",
+                """        let reopened = File::open(&cas_path).map_err(|e| CasManagerError::FileOperation {
+            operation: CasIoOperation::OpenRangeRead,
+            path: cas_path.clone(),
+            source: e,
+        })?;
+        let file = &reopened;
+        let read_len = range_end - range_start;
+        if read_len == 0 {""")],
+     "expect": [("C05", "C05|R2")]},
+    {"name": "c08-delete-any-hash",
+     "edits": [("src/orphan.rs",
+                """        if !self.orphaned_blobs.contains(hash) {
+            return Ok(false); // Not in orphan list
+        }
+""", "")],
+     "expect": [("C08", "C08|R1")]},
+    {"name": "c08-skip-unparsable-names",
+     "edits": [("src/orphan.rs",
+                """                    None => {
+                        // Invalid filename or path structure
+                        invalid_files.push(blob_path);
+                    }""",
+                """                    None => {
+                        // Invalid filename or path structure
+                        tracing::debug!(path = ?blob_path, "ignoring unknown file");
+                    }""")],
+     "expect": [("C08", "C08|R4")]},
+    {"name": "c08-missing-polarity",
+     "edits": [("src/orphan.rs",
+                """        if !seen_blobs.contains(&hash) {""",
+                """        if seen_blobs.contains(&hash) {""")],
+     "expect": [("C08", "C08|R6")]},
+    {"name": "c08-verifier-size-only",
+     "edits": [("src/orphan.rs",
+                """    let actual_hash = BlobHash(hasher.finalize().into());
+    Ok(actual_hash == *expected_hash)""",
+                """    let actual_hash = BlobHash(hasher.finalize().into());
+    let _ = actual_hash == *expected_hash;
+    Ok(true)""")],
+     "expect": [("C08", "C08|R5")]},
+    {"name": "c08-staging-listed-as-invalid",
+     "edits": [("src/orphan.rs",
+                """            staging_files.push(entry.path());""",
+                """            staging_files.push(cas_inner.paths.cas_root_path().join(entry.file_name()));""")],
+     "expect": [("C08", "C08|R3")]},
+]
+
 BENIGN = []
